@@ -21,7 +21,7 @@ import dlib  # noqa: E402
 
 logging.disable(logging.CRITICAL)
 
-from traits.api import Dict, HasTraits, Instance, Int, List, Set, Str  # noqa: E402
+from traits.api import Any, Dict, HasTraits, Instance, Int, List, Set, Str  # noqa: E402
 from traits.constants import ComparisonMode  # noqa: E402
 from traits.observation import expression as X  # noqa: E402
 from traits.observation._filtered_trait_observer import FilteredTraitObserver  # noqa: E402
@@ -37,7 +37,8 @@ EXN = ["NotifierNotFound", "ValueError"]
 FN = {0: "value", 1: "f", 2: "g", 3: "kids", 4: "m", 5: "s", 10: "trait_added", 11: "trait_modified",
       12: "x1", 13: "x2",      # 12, 13: dynamic Instance traits added with add_trait
       14: "groups",            # a Dict(Str, List(Instance)): nested containers (dict object: pseudo-field 17)
-      15: "kidsI"}             # a List declared with comparison_mode=identity (list object: pseudo-field 18)
+      15: "kidsI",             # a List declared with comparison_mode=identity (list object: pseudo-field 18)
+      16: "cdef"}              # an Instance link; on one object per case its default is a CONSTANT HasTraits object
 NF = {v: k for k, v in FN.items()}
 NF.update({"x1_items": 12, "x2_items": 13})
 
@@ -54,14 +55,17 @@ LAZY = {}     # (id(object), trait name) -> the content its _name_default method
 
 
 class N(HasTraits):
-    value = Int()
-    f = Instance(HasTraits, tag=True)
-    g = Instance(HasTraits, tag=True)
+    # mv, mf, mvf, mvg, mfg: metadata selecting the traits {value}, {f}, {value, f}, {value, g}, {f, g} (legacy names
+    # '+mv' ...: "any trait having this metadata"); some of the values are False, which is not None
+    value = Int(mv=False, mvf=False, mvg=False)
+    f = Instance(HasTraits, tag=True, mf=False, mvf=True, mfg=False)
+    g = Instance(HasTraits, tag=True, mvg=True, mfg=True)
     kids = List(Instance(HasTraits), tagc=True)
     m = Dict(Str, Instance(HasTraits))
     s = Set(Instance(HasTraits))
     groups = Dict(Str, List(Instance(HasTraits)))
     kidsI = List(Instance(HasTraits), comparison_mode=ComparisonMode.identity)
+    cdef = Instance(HasTraits)
 
     # container defaults computed by _name_default methods: empty unless the case declares content
     def _kids_default(self):
@@ -158,13 +162,22 @@ def build_expr(g, hetero=False):
 
 
 class World:
-    def __init__(self, npool, falsy=False, eqcls=False, dictkind=(), itemsname=False):
+    def __init__(self, npool, falsy=False, eqcls=False, dictkind=(), itemsname=False, cdef=None):
         LAZY.clear()             # keyed by id(): nothing of an earlier case may survive into this one
         EQKEY.clear()
         # itemsname: the dynamic traits are GENUINE traits whose names end in '_items' (add_trait('x2_items', ...));
         # only used with named observers (HasTraits.traits() leaves such instance traits out, so filters differ)
         FN[12], FN[13] = ("x1_items", "x2_items") if itemsname else ("x1", "x2")
         self.pool = [pool_class(falsy, eqcls, i in dictkind)() for i in range(npool)]
+        self.extras = {}         # id -> HasTraits object that is not in the pool (a constant default, numbered when read)
+        if cdef is not None:
+            # cdef = [object, style]: that object's class has a CONSTANT default for the link `cdef`, itself an
+            # observable object: `cdef = Any(D)` (style 0) or the inherited Instance default overridden by `cdef = D`
+            o, style = cdef
+            self.const = N()
+            base = pool_class(falsy, eqcls, o in dictkind)
+            cls = type("PConst", (base,), {"cdef": Any(self.const) if style == 0 else self.const})
+            self.pool[o] = cls()
         self.order = {}          # cid -> keys in positional order, for a `kids` container that is a dict
         self.atom = {id(o): i for i, o in enumerate(self.pool)}
         self.conts = {}          # cid -> container object (kept alive)
@@ -184,7 +197,8 @@ class World:
         a = self.atom.get(id(v))
         if a is not None:
             return a
-        if may_alloc and self.pending is not None and isinstance(v, (TraitList, TraitDict, TraitSet)):
+        if may_alloc and self.pending is not None and (isinstance(v, (TraitList, TraitDict, TraitSet))
+                                                       or v is getattr(self, "const", None)):
             a = self.pending
             self.register(v)
             return a
@@ -196,6 +210,9 @@ class World:
         cid = self.pending
         self.pending = None
         self.atom[id(cont)] = cid
+        if isinstance(cont, HasTraits):
+            self.extras[cid] = cont
+            return
         self.conts[cid] = cont
         self.cfield[cid] = self.pending_field
 
@@ -237,11 +254,11 @@ class World:
     # ----- dumps ---------------------------------------------------------
     def heap(self):
         out = {}
-        for i, o in enumerate(self.pool):
+        for i, o in list(enumerate(self.pool)) + sorted(self.extras.items()):
             for f in (1, 2):
                 v = o.__dict__.get(FN[f])
                 out["%d,%d" % (i, f)] = [] if v is None else self.ids([v])
-            for f in (12, 13):
+            for f in (12, 13, 16):
                 v = o.__dict__.get(FN[f])
                 if v is not None:
                     out["%d,%d" % (i, f)] = self.ids([v])
@@ -269,7 +286,7 @@ class World:
 
     def hooks(self):
         out = {}
-        for i, o in enumerate(self.pool):
+        for i, o in list(enumerate(self.pool)) + sorted(self.extras.items()):
             it = o._instance_traits()
             for f, name in FN.items():
                 t = it.get(name)
@@ -287,7 +304,7 @@ class World:
 
     # ----- operations ----------------------------------------------------
     def obj(self, a):
-        return self.pool[a]
+        return self.pool[a] if a < len(self.pool) else self.extras[a]
 
     def run_op(self, op):
         k = op[0]
@@ -300,12 +317,12 @@ class World:
         elif k == "SetRef":
             o, f, v = op[1:4]
             if len(op) > 4 and op[4] == "del":      # del o.f: back to the default (None), with notification
-                delattr(self.pool[o], FN[f])
+                delattr(self.obj(o), FN[f])
             else:
                 if len(op) > 4 and op[4] == "eq":   # the fresh object compares equal (by value) to the one it replaces
-                    old = self.pool[o].__dict__.get(FN[f])
+                    old = self.obj(o).__dict__.get(FN[f])
                     EQKEY[id(self.pool[v])] = EQKEY.get(id(old), id(old))
-                setattr(self.pool[o], FN[f], None if v is None else self.pool[v])
+                setattr(self.obj(o), FN[f], None if v is None else self.pool[v])
         elif k == "SetCont":
             o, f, items = op[1:4]
             self.pending = self.next
@@ -498,14 +515,14 @@ class World:
                 self.pool[op[1]].add_trait(FN[op[2]], Instance(HasTraits))
         elif k == "Probe":
             self.counter += 1
-            self.pool[op[1]].value = self.counter
+            self.obj(op[1]).value = self.counter
         else:
             raise ValueError(k)
 
 
 def run_case(case):
     w = World(case["npool"], bool(case.get("falsy")), bool(case.get("eqcls")), set(case.get("dictkind") or ()),
-              bool(case.get("itemsname")))
+              bool(case.get("itemsname")), case.get("cdef"))
     hist = []
     prev_heap, prev_hooks = None, None
     for op in case["ops"]:
